@@ -16,12 +16,16 @@ from harness import engine_explore as ee
 def gen_user_case(rng, tier, cyclic=False):
     shape = rng.random() if not cyclic else 1.0
     hub = shape < 0.42
+    lit_cycle = cyclic and rng.random() < 0.4
     spec = (plans.gen_hub_spec(rng) if shape < 0.3 else plans.gen_litchain_spec(rng) if hub
-            else plans.gen_spec(rng, nmax=8 if tier == "quick" else 14, cyclic=cyclic))
+            else plans.gen_spec(rng, nmax=8 if tier == "quick" else 14, cyclic=cyclic and not lit_cycle))
+    on_cycle = plans.add_literal_cycle(rng, spec) if lit_cycle else None
     ids = [nd["id"] for nd in spec["nodes"]]
     calls = [nd["id"] for nd in spec["nodes"] if nd["kind"] == "call"]
     k = rng.choice([0, 1, 2, 2, 3, 4])
     out = rng.sample(ids, min(k, len(ids))) if rng.random() < 0.9 else None
+    if on_cycle is not None:                      # the cycle is among the needed nodes
+        out = sorted(set(out or []) | {on_cycle})
     if hub:                                       # everything behind the junction is requested
         sinks = [i for i in calls if not any(a == i for a, _ in spec["deps"])
                  and not any(r.get("n") == i for nd in spec["nodes"] if nd["kind"] == "call" for r in nd["args"])]
